@@ -277,6 +277,8 @@ End JacobiW.
 (* ------------------------------------------------------------------ *)
 (* SPAI-0 on wdd matrices whose rows have no duplicate columns *)
 Hypothesis Habs2 : forall v : S, sabs v * sabs v = v * v.
+(* real value types: math::adjoint is the identity (spai0.hpp accumulates adjoint(a_ii), finding C06-spai0-no-conj) *)
+Hypothesis Hadj : forall v : S, sadj v = v.
 
 Lemma rn2_acc (r : row) (a : S) :
   fold_left (fun acc (e : nat * S) => acc + sabs (snd e) * sabs (snd e)) r a = a + row_norm2 r.
@@ -351,7 +353,7 @@ Proof.
 Qed.
 
 Lemma sp_M_get i : i < n -> vget M i = sinv (N2 i) * mget A i i.
-Proof. intro Hi. unfold M. rewrite (spai0_setup_get A i Hi), (sp_norm i Hi). reflexivity. Qed.
+Proof. intro Hi. unfold M. rewrite (spai0_setup_get_id A i Hadj Hi), (sp_norm i Hi). reflexivity. Qed.
 
 Lemma sp_e_pos i : i < n -> olt s0 (ecoef s1 M i).
 Proof.
